@@ -1,16 +1,10 @@
 import TF.Drv.Proto
-import TF.Drv.BField
+import TF.Drv.Registry
 /-!
 `tfm`: the executable model. Reads one request per line on stdin, writes one reply per line on stdout.
 Imports only core-Lean modules (TF.Gen / TF.Model / TF.Spec / TF.Drv), so it links without Mathlib.
 -/
-open TF.Proto
-
-def dispatch (fam : String) : Option Handler :=
-  match fam with
-  | "bfe" => some TF.Drv.BField.bfe
-  | "xfe" => some TF.Drv.BField.xfe
-  | _ => none
+open TF.Proto TF.Drv
 
 def reply (line : String) : String :=
   match (line.trimAscii.toString.splitOn " ").filter (· ≠ "") with
